@@ -311,7 +311,10 @@ PollDue(cs) == cs.proto = "at4" /\ cs.phase = "ready" /\ (cs.now = cs.pollDl \/ 
 \* a command whose frame content is undetermined (exp.any) explains a frame only while the call is in
 \* progress; a determined command also explains a later frame (queued while the link was down)
 \* (C02: nothing is written at or after its lifetime - an expired command explains no frame)
-CmdIdx(cs, alts) == {i \in 1..Len(cs.cmds) : cs.cmds[i].sent \in {0, 2} /\ ~Eq(cs.cmds[i].exp.reject, TRUE)
+\* (C02: after a write failure an idempotent command is written again - 2 retries - an accumulating one never)
+MayWrite(c) == \/ (c.sent = 0 /\ c.att = 0) \/ c.sent = 2
+               \/ (c.sent = 0 /\ c.failed /\ c.att < 3 /\ ~Eq(c.exp.nonidem, TRUE))
+CmdIdx(cs, alts) == {i \in 1..Len(cs.cmds) : MayWrite(cs.cmds[i]) /\ ~Eq(cs.cmds[i].exp.reject, TRUE)
                                              /\ cs.now < cs.cmds[i].t + CMD_LIFE
                                              /\ (~cs.cmds[i].done \/ ~Eq(cs.cmds[i].exp.any, TRUE))
                                              /\ \E a \in 1..Len(alts) : CmdMatches(cs.cmds[i].exp, alts[a])}
@@ -341,7 +344,11 @@ TxFrame(cs, ev) ==
      ELSE IF ci # {}
           THEN \* among calls that read the same, the frame belongs to one whose message is still alive
                LET j == Min(ci)
-               IN [cs EXCEPT !.cmds[j].sent = 1, !.cmds[j].ss = cs.nstall > 0]
+               IN [cs EXCEPT !.cmds[j].sent = IF ev.failed THEN 0 ELSE 1, !.cmds[j].ss = cs.nstall > 0,
+                             !.cmds[j].att = @ + 1, !.cmds[j].failed = ev.failed]
+     ELSE IF kind = "command" /\ \E i \in 1..Len(cs.cmds) : cs.cmds[i].failed /\ Eq(cs.cmds[i].exp.nonidem, TRUE)
+                                                              /\ \E a \in 1..Len(ev.alts) : CmdMatches(cs.cmds[i].exp, ev.alts[a])
+          THEN CV(cs, "NonIdempotentResent")
      ELSE IF kind = "version" /\ cs.phase = "ready"
           THEN IF HeartbeatDue(cs) THEN [cs EXCEPT !.beaten = TRUE]
                ELSE CV(cs, "HeartbeatOffSchedule")
@@ -387,7 +394,8 @@ CallApi(cs, ev) ==
              ex == IF cs.phase # "ready" \/ (ev.tk = "ac" /\ ai = {}) \/ (ev.tk = "zone" /\ zi = {})
                    THEN [reject |-> "ANY", msgs |-> <<>>, nonidem |-> FALSE, any |-> TRUE]
                    ELSE Expect(cs.proto, ev, a, z)
-         IN [cs EXCEPT !.cmds = Append(@, [id |-> ev.id, exp |-> ex, sent |-> 0, done |-> FALSE, ss |-> FALSE, t |-> cs.now, stale |-> FALSE])]
+         IN [cs EXCEPT !.cmds = Append(@, [id |-> ev.id, exp |-> ex, sent |-> 0, done |-> FALSE, ss |-> FALSE, t |-> cs.now, stale |-> FALSE,
+                                           att |-> 0, failed |-> FALSE])]     \* frames seen for it; the last one was cut off by a write failure
     [] OTHER -> cs
 
 RetApi(cs, ev) ==
@@ -470,6 +478,8 @@ Quiesce(cs0) ==
                    cs.cmds[i].done /\ Eq(cs.cmds[i].exp.reject, FALSE) /\ ~Eq(cs.cmds[i].exp.any, TRUE) /\ cs.cmds[i].sent = 0
                    \* a command accepted while the link was down is held for CMD_LIFE only (C02): owed while alive
                    /\ cs.now < cs.cmds[i].t + CMD_LIFE /\ ~cs.cmds[i].stale
+                   \* never tried, or cut off by a write failure and idempotent (C02: re-sent on the next connection)
+                   /\ (cs.cmds[i].att = 0 \/ (cs.cmds[i].failed /\ cs.cmds[i].att < 3 /\ ~Eq(cs.cmds[i].exp.nonidem, TRUE)))
             THEN CV(c2, "CommandNotSent") ELSE c2
       \* C14: refresh after reconnection, error details requested
       c4 == IF cs.up /\ cs.phase = "ready" /\ cs.refresh # <<>> THEN CV(c3, "RefreshMissing") ELSE c3
@@ -514,6 +524,10 @@ CStep(cs0, ev) ==
                                                     IF cs.cmds[i].ss
                                                     THEN [cs.cmds[i] EXCEPT !.ss = FALSE, !.sent = IF ev.ended /\ @ = 1 THEN 2 ELSE @]
                                                     ELSE cs.cmds[i]]]
+       \* a bare HeartbeatManager (no API object, no handshake): monitoring starts / stops
+       [] k = "hbstart"   -> [cs EXCEPT !.phase = "ready", !.hbDl = cs.now + HB_TIMEOUT, !.hbPrev = -1, !.beatDl = cs.now, !.beaten = FALSE,
+                                        !.pollDl = cs.now + 1000000000, !.initRet = "true", !.steady = cs.up]
+       [] k = "hbstop"    -> [cs EXCEPT !.phase = "idle"]
        [] k = "cb"        -> Callback(cs, ev)
        \* (un)subscribing from inside a callback happens in the middle of a round of notifications:
        \* the round is not closed by it; the other subscribers are still owed their call
